@@ -23,6 +23,24 @@ CHECKS = {
             "Saml2Client and compares accept/reject with an independent truth table in both directions; the driver's "
             "event log must show a genuine successful verification for every signature present in an accepted cell.",
             TRUST, "3/C02"),
+    "C03": ("exploration", "generated federation + outcome oracle + trace oracle over the tool event log (which certificates were tried)",
+            "Hand-written metadata for IdPs with signing-only, signing+encryption, use-less, encryption-only and several signing certificates and an "
+            "unknown issuer; every pairing of claimed issuer x actual signing key x embedded certificate x level x only_use_keys_in_metadata (and "
+            "assertions naming another issuer than the response) is delivered; accept/reject is compared with the documented rule and the driver log "
+            "must show that no certificate outside the issuer's signing-capable metadata keys (or, with the option off and no such key, the embedded "
+            "one) was even tried.",
+            TRUST, "3/C03"),
+    "C04": ("exploration", "virtual clock + edge-grid workload + independent xs:dateTime oracle (must-reject / must-accept / unspecified)",
+            "Under a virtual clock, rewrites every time bound of an IdP-made response (each subset of optional bounds present), places one bound at "
+            "offsets 1, 2 and far beyond/inside its edge widened by allowances 0..1e7 in several timestamp spellings, and compares accept/reject with "
+            "an independent reader; on acceptance the session expiry handed to the application is compared. Recording wrappers on "
+            "validate_on_or_after/validate_before count the bounds actually decided.",
+            TRUST, "3/C04"),
+    "C05": ("exploration", "cross-product workload on addressing fields + reference predicate on the API boundary",
+            "Runs the product InResponseTo x bearer InResponseTo x Destination x audience layout x Recipient x allow_unsolicited x conversation info x "
+            "destination pattern (thinned in quick, full in thorough, also re-signed) through parse_authn_request_response; acceptance must imply "
+            "every addressing rule and the conforming cells must be accepted.",
+            TRUST, "3/C05"),
     "C11": ("exploration", "hostile-document workload over introspected entry points with audit-hook, parser-construction and tool-log monitors",
             "Feeds a catalogue of hostile documents (internal/external/parameter entities, billion laughs, external DTD, XInclude, stylesheet PI, "
             "UTF-16/BOM, truncations, non-XML) to every *_from_string of every schema module, the generic constructors, the SOAP/pack readers, the "
